@@ -684,8 +684,184 @@ fn check_forecasts(rep: &mut Report, m: &AR, f: &Fit, x: &[f64], sd: f64, rng: &
 
 fn one_series(cfg: &Cfg, rng: &mut Rng, rep: &mut Report) {
     let s = gen_series(rng, cfg.lite);
-    let x = &s.x;
     let regime = format!("{}:{}", s.kind, s.off);
+    series_pipeline(cfg, rng, rep, &regime, &s.x);
+}
+
+// ---------------------------------------------------------------------------------------------
+// series with exact coincidences in their order statistics and moments
+//
+// Levels relative to their peak (x − max x, drawdowns), levels above their floor (x − min x), censored
+// and intermittent data (exact zeros of either sign), counts and negated counts, peak-normalised series
+// (extreme value exactly ±1 or a power of two), antisymmetric series (mean exactly 0), series with
+// max = −min, strictly one-signed series. All transformations are done in integer units of the 2^-20
+// grid, so every value (and every shifted value) is exact and the double-double definitions are the
+// only reference: the whole pipeline of an ordinary series runs on each of them.
+
+const COINC: [&str; 10] = [
+    "coincidence:max==0(x-max)",
+    "coincidence:min==0(x-min)",
+    "coincidence:drawdown-from-running-extreme",
+    "coincidence:extreme==+-2^k",
+    "coincidence:antisymmetric(mean==0,max==-min)",
+    "coincidence:max==-min",
+    "coincidence:exact-zeros(+0/-0)",
+    "coincidence:censored-at-0",
+    "coincidence:integer-counts",
+    "coincidence:strictly-one-signed",
+];
+
+/// base series in integer units of 2^-20: stationary AR(1..3), white noise, AR + linear trend
+fn base_units(rng: &mut Rng, n: usize) -> (&'static str, Vec<i64>) {
+    let kind = *rng.choose(&["ar", "ar", "noise", "ar+trend"]);
+    let s = if rng.chance(0.25) { rng.log_range(1e-2, 0.1) } else { rng.log_range(0.1, 100.0) };
+    let mut v: Vec<f64> = if kind == "noise" {
+        (0..n).map(|_| s * rng.normal()).collect()
+    } else {
+        let p = rng.usize(1, 3);
+        let pacf: Vec<f64> = (0..p).map(|_| rng.range(-0.85, 0.85)).collect();
+        simulate_ar(rng, &pacf_to_phi(&pacf), 300, n).iter().map(|a| s * a).collect()
+    };
+    if kind == "ar+trend" {
+        let slope = s * rng.log_range(1e-3, 0.3) * if rng.bool() { 1.0 } else { -1.0 };
+        for (t, a) in v.iter_mut().enumerate() {
+            *a += slope * t as f64;
+        }
+    }
+    (kind, v.iter().map(|a| (a * GRID).round() as i64).collect())
+}
+
+fn gen_coincidence(rng: &mut Rng, class: usize, nmax: usize) -> (&'static str, Vec<f64>) {
+    let n = rng.log_range(10.0, nmax as f64).round() as usize;
+    let g = GRID as i64;
+    let mut negzero = false;
+    let (kind, z): (&'static str, Vec<i64>) = match class {
+        0 => {
+            let (k, u) = base_units(rng, n);
+            let m = *u.iter().max().unwrap();
+            negzero = rng.chance(0.3);
+            (k, u.iter().map(|v| v - m).collect())
+        }
+        1 => {
+            let (k, u) = base_units(rng, n);
+            let m = *u.iter().min().unwrap();
+            negzero = rng.chance(0.3);
+            (k, u.iter().map(|v| v - m).collect())
+        }
+        2 => {
+            // distance from the running peak (<= 0) or from the running trough (>= 0) of a persistent series
+            let phi = [if rng.bool() { 1.0 } else { rng.range(0.8, 0.99) }];
+            let s = rng.log_range(0.1, 30.0);
+            let w: Vec<i64> = simulate_ar(rng, &phi, 0, n).iter().map(|a| (s * a * GRID).round() as i64).collect();
+            let up = rng.bool();
+            let mut run = w[0];
+            negzero = rng.chance(0.3);
+            (
+                if phi[0] == 1.0 { "random-walk" } else { "persistent-ar1" },
+                w.iter()
+                    .map(|&v| {
+                        run = if up { run.min(v) } else { run.max(v) };
+                        v - run
+                    })
+                    .collect(),
+            )
+        }
+        3 => {
+            let (k, u) = base_units(rng, n);
+            let top = rng.bool();
+            let e = if top { *u.iter().max().unwrap() } else { *u.iter().min().unwrap() };
+            let target = (if rng.bool() { 1 } else { -1 }) * if rng.chance(0.4) { g } else { g >> 3 << rng.usize(0, 15) };
+            (k, u.iter().map(|v| v - e + target).collect())
+        }
+        4 => {
+            let (k, u) = base_units(rng, n / 2);
+            let mut z = u.clone();
+            if n % 2 == 1 {
+                z.push(0);
+            }
+            z.extend(u.iter().rev().map(|v| -v));
+            negzero = rng.chance(0.3);
+            (k, z)
+        }
+        5 => {
+            let (k, u) = base_units(rng, n);
+            let (lo, hi) = (*u.iter().min().unwrap(), *u.iter().max().unwrap());
+            (k, u.iter().map(|v| 2 * v - (lo + hi)).collect())
+        }
+        6 => {
+            let (k, u) = base_units(rng, n);
+            let q = *rng.choose(&[0.05, 0.2, 0.5]);
+            negzero = true;
+            (k, u.iter().map(|&v| if rng.chance(q) { 0 } else { v }).collect())
+        }
+        7 => {
+            let (k, u) = base_units(rng, n);
+            let m = u.iter().sum::<i64>() / n as i64;
+            let below = rng.bool();
+            negzero = rng.chance(0.5);
+            (k, u.iter().map(|&v| if below { (v - m).min(0) } else { (v - m).max(0) }).collect())
+        }
+        8 => {
+            let lam = *rng.choose(&[0.5, 2.0, 10.0, 200.0]);
+            let sign = if rng.bool() { 1 } else { -1 };
+            negzero = rng.chance(0.3);
+            ("counts", (0..n).map(|_| sign * g * rng.poisson(lam) as i64).collect())
+        }
+        _ => {
+            let (k, u) = base_units(rng, n);
+            let delta = if rng.bool() { 1 } else { (rng.log_range(1e-3, 1e3) * GRID) as i64 + 1 };
+            if rng.bool() {
+                let m = *u.iter().max().unwrap();
+                (k, u.iter().map(|v| v - m - delta).collect())
+            } else {
+                let m = *u.iter().min().unwrap();
+                (k, u.iter().map(|v| v - m + delta).collect())
+            }
+        }
+    };
+    let x: Vec<f64> = z.iter().map(|&v| if v == 0 && negzero && rng.bool() { -0.0 } else { v as f64 / GRID }).collect();
+    (kind, x)
+}
+
+fn one_coincidence(cfg: &Cfg, rng: &mut Rng, rep: &mut Report, class: usize) {
+    let nmax = if cfg.lite { 300 } else { 5000 };
+    let mut tries = 0;
+    let (kind, x) = loop {
+        let (kind, x) = gen_coincidence(rng, class, nmax);
+        tries += 1;
+        if x.iter().any(|v| *v != x[0]) || tries >= 20 {
+            break (kind, x);
+        }
+    };
+    if !x.iter().any(|v| *v != x[0]) {
+        rep.inconclusive(format!("coincidence generator: constant series in class {}", COINC[class]));
+        return;
+    }
+    let (lo, hi) = x.iter().fold((f64::INFINITY, f64::NEG_INFINITY), |(l, h), &v| (l.min(v), h.max(v)));
+    let sum: f64 = dd::sum(&x).f();
+    for (c, label) in [
+        (hi == 0.0, "series:max==0"),
+        (lo == 0.0, "series:min==0"),
+        (hi == -lo, "series:max==-min"),
+        (sum == 0.0, "series:sum==0"),
+        (hi < 0.0, "series:all-negative"),
+        (lo > 0.0, "series:all-positive"),
+        (hi == 0.0 && lo < 0.0, "series:nonpositive-touching-0"),
+        (lo == 0.0 && hi > 0.0, "series:nonnegative-touching-0"),
+        (x.iter().any(|v| *v == 0.0 && v.is_sign_negative()), "series:contains--0.0"),
+        (x.iter().all(|v| v.fract() == 0.0), "series:integer-valued"),
+        (hi.abs().log2().fract() == 0.0 || lo.abs().log2().fract() == 0.0, "series:extreme-is-power-of-two"),
+    ] {
+        if c {
+            rep.seen(label, 1);
+        }
+    }
+    rep.seen(&format!("coincidence-base:{}", kind), 1);
+    series_pipeline(cfg, rng, rep, COINC[class], &x);
+}
+
+fn series_pipeline(cfg: &Cfg, rng: &mut Rng, rep: &mut Report, regime: &str, x: &[f64]) {
+    let regime = regime.to_string();
     rep.case(&regime);
     let df = defs(x);
     let sd = df.c0.sqrt();
@@ -840,12 +1016,25 @@ fn one_smooth(cfg: &Cfg, rng: &mut Rng, rep: &mut Report) {
 pub fn run(cfg: &Cfg, rep: &mut Report) {
     rep.rule = "random series: AR(1..6) simulated from random partial autocorrelations (stationary by construction), AR + linear trend, constant + white noise; scale 0.1..100, length log-uniform 10..5000; centred exactly (integer arithmetic on a 2^-20 grid, fitted intercept == 0.0), small offset, or offset 1e2..1e6; per series all lags -50..50 and |lag| >= n, 2-3 model orders in 1..8, horizons 1..1000, shifts c in {1,1e3,1e6}. Series close to the boundary of stationarity (nearly singular Yule-Walker systems; 64 quick / 800 thorough, 3 of 4 with length 2000..5000): AR(2..6) with all roots at 0.95..0.999, white noise passed 2..4 times through a moving average, 1..3 slow sinusoids (0.3..4 cycles per series, optional drift) plus white noise of 1e-3..3e-2 of their sd, narrow-band AR(2) with root modulus 1-1e-5..1-1e-3 plus a small noise floor; lag-1 sample autocorrelation up to 1-4e-6, |pacf(2)| up to 0.9995; per series all lags, the fit at EVERY order 1..8 against the Yule-Walker equations of its own double-double autocovariances, forecasts at two orders. non-trivial = non-constant series; distinct by (regime, length, first 16 values)".into();
     rep.assume("series values are multiples of 2^-20 with |x| < 2^22, so x + c is exactly representable and the shifted input is not itself rounded");
+    rep.assume("coincidence family: x - max(x), x - min(x), distance from the running peak / trough of a random walk or persistent AR(1), extreme value moved to +-2^k (k = -3..12, +-1 most often), antisymmetric series, 2x - (max+min), entries replaced by +0.0 / -0.0, series censored at 0, Poisson counts and their negatives, strictly one-signed series; all built in integer units of 2^-20 (exact), lengths 10..5000; each runs through the same assertions as an ordinary series (definitions, evenness, lag 0, intercept, Yule-Walker, forecast reference, shift equivariance with c in {1,1e3,1e6})");
     rep.assume("model order p <= 8 < 10 <= series length (predict_one with fewer than p values and predict on shorter histories are outside the quantifier)");
     rep.assume("coefficients are read from AR.coeffs in the documented (reversed) storage order");
     rep.assume("coefficient checks are skipped when kappa(R)*(8p*eps + acf error bound) > 1e-3 and shift equivariance when kappa(R) > 1e4: there a refit legitimately moves the coefficients by more than the tolerance (counted under the low-power / skipped regimes)");
     rep.assume("'forecasts converge to the mean' is restated as: equality with the reference recursion for every horizon <= 1000, and |f_1000 - mean| <= 1e-6 sd whenever the reference has decayed below 1e-9 sd");
     let n = cfg.pick(300, 6000, 3);
     par_cases(cfg, rep, 1, n, |_i, rng, rep| one_series(cfg, rng, rep));
+    // exact coincidences in order statistics / moments (classes in turn). Off under Miri: the family probes
+    // values, not memory, and one series costs as much interpreter time as one of the three lite series
+    let nc = if cfg.miri() { 0 } else { cfg.pick(12, 120, 1) * COINC.len() };
+    par_cases(cfg, rep, 4, nc, |i, rng, rep| one_coincidence(cfg, rng, rep, i % COINC.len()));
+    if !cfg.miri() {
+        for c in COINC {
+            rep.require(c, 1);
+        }
+        for r in ["series:max==0", "series:min==0", "series:max==-min", "series:sum==0", "series:all-negative", "series:all-positive", "series:nonpositive-touching-0", "series:nonnegative-touching-0", "series:contains--0.0", "series:integer-valued", "series:extreme-is-power-of-two"] {
+            rep.require(r, 1);
+        }
+    }
     // directed: the unit-test series shape (short, zero-mean-ish) and the DESIGN probe (AR(2) + 1000)
     par_cases(cfg, rep, 2, 1, |_i, rng, rep| {
         let phi = [0.6, -0.3];
